@@ -274,7 +274,11 @@ pub async fn scenario_body(seed: u64, trace: Arc<Trace>, threaded: bool, tl: Opt
     if use_tl {
         desc.push("subject is a thread-local actor".into());
     }
-    let spawned = if use_tl {
+    let spawned = if use_tl && Prng::new(seed ^ 0x72).chance(1, 2) {
+        // a Send actor driven through the thread-local API (ractor's blanket adapter)
+        desc.push("(through the Send->thread-local adapter)".into());
+        spawn_adapter_probe(&subj, if linked { Some(sup_ref.get_cell()) } else { None }, tl.clone().unwrap()).await
+    } else if use_tl {
         spawn_tl_probe(&subj, if linked { Some(sup_ref.get_cell()) } else { None }, tl.clone().unwrap()).await
     } else {
         spawn_probe(&subj, if linked { Some(sup_ref.get_cell()) } else { None }).await
